@@ -78,3 +78,90 @@ def symlist(h, name, sort=None):
     f = z3.Function(f"elem_{name}", z3.IntSort(), sort or z3.StringSort())
     h.syms[f"elem_{name}"] = f
     return SymSeq(sp, f(sp.u), name)
+
+
+class Three:
+    """the three frames returned by get_units (post-state of C09), as symbolic key-unique tables:
+    reporting R(u), nonreporting N(u), third T(u) -- pairwise disjoint (C09.get_units.*.iff / exactly_once)."""
+
+    KEYS = ("postal_code", "county_fips", "county_classification", "district")
+
+    def __init__(self, h, estimand, with_pred=True, alphas=(), extra=()):
+        self.h = h
+        root, fips = frames.unit_universe("units")
+        self.root, self.fips = root, fips
+        h.syms["fips_units"] = fips
+        h.ctx.assume(z3.And(*root.facts()))
+        u = root.u
+        I, R_, S, B = z3.IntSort(), z3.RealSort(), z3.StringSort(), z3.BoolSort()
+
+        def fn(name, sort):
+            f = z3.Function(name, I, sort)
+            h.syms[name] = f
+            return f
+
+        self.fn = fn
+        self.R, self.N, self.T = fn("inRep", B)(u), fn("inNonrep", B)(u), fn("inThird", B)(u)
+        h.ctx.assume(z3.And(z3.Not(z3.And(self.R, self.N)), z3.Not(z3.And(self.R, self.T)), z3.Not(z3.And(self.N, self.T))))
+        h.ctx.assume(z3.Implies(fips(root.u) == fips(root.u2), root.u == root.u2))
+        e = estimand
+        self.e = e
+        self.res = fn(f"results_{e}", R_)(u)
+        self.last = fn(f"last_{e}", R_)(u)
+        self.keys = {k: fn(k, S)(u) for k in self.KEYS}
+        self.knullT = {k: fn(f"null_{k}_third", B)(u) for k in self.KEYS if k != "postal_code"}
+        self.category = fn("unit_category_third", S)(u)
+
+        def cols(kind):
+            c = {"postal_code": self.keys["postal_code"], "geographic_unit_fips": fips(u), f"results_{e}": self.res}
+            for k in self.KEYS[1:]:
+                c[k] = V(self.keys[k], (), None, self.knullT[k]) if kind == "T" else self.keys[k]
+            c["reporting"] = z3.IntVal(1 if kind == "R" else 0)
+            c["unit_category"] = z3.StringVal("expected") if kind != "T" else self.category
+            if kind != "T":
+                c[f"last_election_results_{e}"] = self.last
+            for x in extra:
+                c[x] = fn(x, R_)(u)
+            return c
+
+        self.rep = frames.base_frame(root, self.R, cols("R"), "geographic_unit_fips")
+        self.nonrep = frames.base_frame(root, self.N, cols("N"), "geographic_unit_fips")
+        self.third = frames.base_frame(root, self.T, cols("T"), "geographic_unit_fips")
+        # V2: counts are non-negative whole numbers; previous result + 1 >= 1
+        if e != "margin":
+            h.ctx.assume(z3.And(self.res >= 0, z3.IsInt(self.res), self.last >= 1, z3.IsInt(self.last)))
+
+    def gsum(self, which, keys, term, extra_dom=None):
+        """Σ over the rows of frame `which` whose key tuple equals the generic group of `keys` (spec side)."""
+        from pyvc import sums
+
+        gs = frames.keyspace(list(keys), {k: z3.StringSort() for k in keys})
+        dom = {"R": self.R, "N": self.N, "T": self.T}[which]
+        conds = [dom]
+        for k in keys:
+            if which == "T" and k != "postal_code":
+                conds.append(z3.Not(self.knullT[k]))
+            conds.append(self.keys[k] == gs.keyvars[k])
+        if extra_dom is not None:
+            conds.append(extra_dom)
+        sym, d = sums.formal_sum_dom(self.h.ctx, self.root, z3.And(*conds), term)
+        return sym, d
+
+    def member(self, which, keys):
+        """some row of frame `which` has the generic key tuple (as a quantifier-free instance pair)"""
+        gs = frames.keyspace(list(keys), {k: z3.StringSort() for k in keys})
+        dom = {"R": self.R, "N": self.N, "T": self.T}[which]
+        conds = [dom]
+        for k in keys:
+            if which == "T" and k != "postal_code":
+                conds.append(z3.Not(self.knullT[k]))
+            conds.append(self.keys[k] == gs.keyvars[k])
+        return z3.And(*conds)
+
+
+AGGS = {
+    "state": ["postal_code"],
+    "county": ["postal_code", "county_fips"],
+    "classification": ["postal_code", "county_classification"],
+    "district": ["postal_code", "district"],
+}
